@@ -5,7 +5,7 @@ implementations (DESIGN 3, C19): T1 EndOfSimulation <=> FinalTimeHasBeenReturned
 T2 refusal afterwards, T3 status written with every status-changing return,
 T4 tMax bounded by scheduled/final time by data flow, T5 switch exhaustive."""
 from ..facts import extract, units_matching, Program, AnalysisBroken, sx_find, sx_enums, sx_str
-from ..match import (ev_write, is_call, call_args, call_obj, field_of, var_of, guard_blocks, lvalue_root, branch_edges)
+from ..match import (inline_predicates, ev_write, is_call, call_args, call_obj, field_of, var_of, guard_blocks, lvalue_root, branch_edges)
 from .c18 import _is_lit, _is_var
 
 IR = "SimTK::IntegratorRep"
@@ -334,10 +334,12 @@ def window(chk, P):
         lo, hi = var_of(a[0]), var_of(a[1])
         site = "%s:%d" % (f.file, e["line"])
         chk.judge(lo is not None and hi is not None and lo != hi, "WINDOW", "site%d:reports(tLow,tHigh)" % n, site, "window ends passed are two local variables")
-        lo_blocks = {bb for bb, blk in f.blocks.items() if blk.get("term") and blk["term"].get("cond") is not None and
-                     sx_find(blk["term"]["cond"], lambda y: y[0] == "op" and y[1] == "<" and var_of(y[2]) == lo and var_of(y[3]) == trep) and blk["term"]["k"] in ("&&", "||", "if", "cond")}
-        hi_blocks = {bb for bb, blk in f.blocks.items() if blk.get("term") and blk["term"].get("cond") is not None and
-                     sx_find(blk["term"]["cond"], lambda y: y[0] == "op" and y[1] == "<" and var_of(y[2]) == trep and var_of(y[3]) == hi)}
+        # conditions are read through local predicate lambdas (`auto inside = [&]{ return tLow < tReport && tReport < tHigh; }`)
+        conds = {bb: inline_predicates(P, f, blk["term"]["cond"]) for bb, blk in f.blocks.items() if blk.get("term") and blk["term"].get("cond") is not None}
+        lo_blocks = {bb for bb, c in conds.items() if
+                     sx_find(c, lambda y: y[0] == "op" and y[1] == "<" and var_of(y[2]) == lo and var_of(y[3]) == trep) and f.blocks[bb]["term"]["k"] in ("&&", "||", "if", "cond")}
+        hi_blocks = {bb for bb, c in conds.items() if
+                     sx_find(c, lambda y: y[0] == "op" and y[1] == "<" and var_of(y[2]) == trep and var_of(y[3]) == hi)}
         p = f.path_exists(None, lambda q: q is e, lambda q: False, avoid_blocks=lo_blocks)
         chk.judge(bool(lo_blocks) and p is None, "WINDOW", "site%d:tLow<tReport-tested-on-every-path" % n, site,
                   "an event window is reported on a path that never compared the report time with the window's low end", p)
